@@ -2,6 +2,7 @@ package props
 
 import (
 	"bytes"
+	"compress/gzip"
 	"encoding/json"
 	"fmt"
 	"math/rand"
@@ -67,8 +68,20 @@ func c18HTTP(c *fw.Case, o *fw.Obs, p *c18Params, rng *rand.Rand) *fw.Obs {
 	var cur plan
 	var body []byte
 	var ctype string
-	srv := httptest.NewServer(http.HandlerFunc(func(w http.ResponseWriter, r *http.Request) {
+	// two more layers the bytes may pass through, each with its own idea of where a read ends: a gzip content encoding
+	// (undone by the client's transport) and TLS records under HTTP/2 frames
+	useGzip, useH2 := p.Size%2 == 1, p.Size%3 == 1
+	srv := httptest.NewUnstartedServer(http.HandlerFunc(func(w http.ResponseWriter, r *http.Request) {
 		w.Header().Set("Content-Type", ctype)
+		body := body
+		if useGzip && r.Header.Get("Accept-Encoding") == "gzip" {
+			var zb bytes.Buffer
+			zw := gzip.NewWriter(&zb)
+			zw.Write(body)
+			zw.Close()
+			body = zb.Bytes()
+			w.Header().Set("Content-Encoding", "gzip")
+		}
 		if cur.pieces == nil {
 			w.Header().Set("Content-Length", fmt.Sprint(len(body)))
 			w.WriteHeader(200)
@@ -99,8 +112,18 @@ func c18HTTP(c *fw.Case, o *fw.Obs, p *c18Params, rng *rand.Rand) *fw.Obs {
 			w.Write(body[off:])
 		}
 	}))
+	if useH2 {
+		srv.EnableHTTP2 = true
+		srv.StartTLS()
+		o.Ev("http_cases_over_h2_tls", 1)
+	} else {
+		srv.Start()
+	}
+	if useGzip {
+		o.Ev("http_cases_with_gzip_content_encoding", 1)
+	}
 	defer srv.Close()
-	cl, err := apiclient.NewClient(srv.URL, logr.Discard())
+	cl, err := apiclient.NewClient(srv.URL, logr.Discard(), apiclient.WithTransport(srv.Client().Transport))
 	if err != nil {
 		o.Status = "inconclusive"
 		o.Note = err.Error()
